@@ -12,7 +12,9 @@ Tie to /repo:
       (`Model/Usb3/PhyTx.lean`) and watched by a far-end monitor that descrambles the PHY's tx words with the
       reference LFSR (no advance over SKP words, restart after COM) and requires the link layer's symbols; the
       receive half (CTCSkipRemover -> RxWordAligner -> Descrambler -> RxPacketAligner) is fed a reference-scrambled
-      stream with SKP symbols inserted at arbitrary symbol positions and must return the original words.
+      stream with SKP symbols inserted at arbitrary symbol positions and must return the original words, and is
+      co-simulated against the composed Lean model (`Model/Usb3/PhyRx.lean`, kind phyrxm) about which
+      `Props/C31PhyRx.lean` proves phy_rx_descrambles / phy_rx_of_phy_tx.
 """
 from harness.common.framework import Case
 from harness.common.rng import Rng
@@ -47,7 +49,9 @@ RULE = ("cases = module (ScramblerLFSR / Scrambler / Descrambler / Scrambler->De
         "mixes so that SKP words land at every alignment and are followed by every kind of word; enable-toggle; "
         "electrical-idle lead-in and pulses) x scrambling on/off; receive half (kind phyrx, monitor only): a far-end "
         "word stream scrambled with the reference LFSR, SKP symbols inserted as whole words / ordered sets at any "
-        "symbol offset / runs of 1-8 / densely / not at all")
+        "symbol offset / runs of 1-8 / densely / not at all; kind phyrxm: the same stimulus and monitor, the pin "
+        "stream started at symbol offset 0..3, and source / raw_source / skip_removed / ctc_bytes_in_buffer / "
+        "alignment_offset compared every cycle with the composed Lean model PhyRx.step")
 ASSUMPTIONS = [
     "descramble_scramble_id: both instances start from the same register value and see the same clear/enable/hold; "
     "ready is the descrambler's source.ready handed back through the pass-through sink.ready",
@@ -56,15 +60,30 @@ ASSUMPTIONS = [
     "ready_after_first_cycle); can_send_skp only together with logical idle (C33: link_layer_idle_mux_guarantees_env); "
     "the link layer sends no SKP word of its own; the far end starts from the transmitter's register value and uses "
     "the same enable_scrambling",
+    "phy_rx_descrambles / phy_rx_of_phy_tx: the receive path is Locked e (SKP remover invariant of C32, word aligner "
+    "at shift e < 4, packet aligner at shift 0, four-symbol registers; true of the reset state with e = 0 - locked_init - "
+    "and after COM COM COM COM arrived at offset e - lock_on_com4); PHY words are four symbols; enable_scrambling "
+    "constant over the history; the symbols in flight in front of the descrambler followed by the pin symbols with SKP "
+    "deleted are the link words (4 symbols of 8 bits each) reference-scrambled from the descrambler's register value "
+    "(SKP symbols anywhere in any number; a trailing incomplete word allowed); QuietW: no COM COM COM COM at an offset "
+    "other than e in the SKP-free pin stream, no SHP SHP SHP EPF / SLC SLC SLC EPF at a non-zero offset in the link "
+    "words.  phy_rx_of_phy_tx in addition: the hypotheses of phy_tx_descrambles for the transmitter, link words without "
+    "SKP K-symbols, the receiver's pins carry the transmitter's wire words, refReg s.reg ws0 = st.reg (in step)",
+    "the receive path has no back-pressure: every ready in it is constant 1 and source.ready is not read "
+    "(physical/layer.py, alignment.py), so the theorems do not mention source.ready",
 ]
-PARTIAL = ("scrambling.py is covered in full.  For the wiring in physical/layer.py the transmit half is modelled "
-           "(Scrambler + CTCSkipInserter models composed with hold = sending_skip, co-simulated) and proved "
-           "(phy_tx_descrambles); the receive half (CTCSkipRemover -> RxWordAligner -> Descrambler -> RxPacketAligner: "
-           "the descrambler does not move over removed SKP symbols because they leave valid gaps) is covered by the "
-           "phyrx monitor on the real gateware only, there is no Lean model of that composition.  After electrical "
+PARTIAL = ("scrambling.py is covered in full, and so is its wiring in physical/layer.py: transmit half (phy_tx_descrambles) "
+           "and receive half (Model/Usb3/PhyRx.lean co-simulated; phy_rx_descrambles, phy_rx_of_phy_tx: rx(tx(ws)) = ws).  "
+           "What the receive theorems do not cover: enable_scrambling changing DURING a history (they take it constant, "
+           "equal on both sides; the transmit theorem and the co-simulation cover toggling); histories in which an "
+           "aligner re-aligns (COM COM COM COM at a new offset / SHP SHP SHP EPF or SLC SLC SLC EPF at a non-zero offset: "
+           "excluded by the decidable side conditions QuietW, the aligners themselves are C34; lock_on_com4 covers the "
+           "cycle in which the word aligner locks) and the packet aligner at a non-zero shift.  After electrical "
            "idle / in the first cycle after reset one word is put on the wire without being transferred "
            "(sink.ready low; C33 observation 2): the theorem and the monitor follow the code there (keystream not "
-           "advanced), a far-end receiver would need the next COM to resynchronise.")
+           "advanced), a far-end receiver would need the next COM to resynchronise; likewise the receiver's descrambler "
+           "has consumed the word aligner's zero history word before the first received word "
+           "(phy_rx_descrambles_from_reset: in step from the first COM-first word on).")
 TRUSTED_EXTRA = [
     "reference LFSR (usbref.usb3_lfsr_bytes, XorAlg.keystream with polynomial 0039h) checked against the first 16 "
     "scrambler output bytes tabulated in USB 3.2 Appendix B",
@@ -635,6 +654,16 @@ def run_phyrx(desc, model=False):
                 fails.append({"cycle": len(rows) - 1, "sig": "phy-rx-starved", "what":
                               "only %d of the %d words after the first COM left the physical layer" % (len(out), len(exp))})
         tags.add("phyrx-words-compared>=%d" % (100 * (min(len(out), len(exp)) // 100)))
+        if model and desc.get("offset", 0) == 0 and not fails:
+            # phy_rx_descrambles_from_reset on the real trace: exactly junk + 3 start-up words precede the link words
+            # (the packet aligner's zero word, the descrambled zero word of the word aligner, the words before the
+            # first COM-first word descrambled out of step, that word itself)
+            if j0 != i0 + 2 or (got[0][1], got[0][2]) != (0, 0):
+                fails.append({"cycle": got[j0][0], "sig": "phy-rx-startup-words", "what":
+                              "from reset the first COM-first word (link word %d) must leave source as valid word %d "
+                              "(two zero-register words ahead of the received ones), it is valid word %d; first valid "
+                              "word %08x/%x" % (i0, i0 + 2, j0, got[0][1], got[0][2])})
+            tags.add("phyrxm-startup-words=junk+3")
         nskp = sum(bin(r[1] & sum(1 << i for i in range(4) if (r[0] >> (8 * i)) & 0xFF == 0x3C)).count("1") for r in stim)
         tags.add("phyrx-skp-symbols" if nskp > 8 else "phyrx-no-skp")
     if model:
